@@ -83,6 +83,11 @@ func (h *History) UnmarshalXML(d *xml.Decoder, start xml.StartElement) error {
 		}
 
 		switch tt := t.(type) {
+		case xml.StartElement:
+			// history has no children: skip anything nested
+			if err := d.Skip(); err != nil {
+				return err
+			}
 		case xml.EndElement:
 			if tt == start.End() {
 				return nil
